@@ -201,6 +201,16 @@ def c13(q):
 
 
 def c14(q):
+    pl = _c14_hist(q)
+    pl["jobs"].append({"sub": "construct", "cfgs": ["debug", "release"], "cases": 60_000 if q else 1_500_000, "ms": 20_000 if q else 200_000, "args": ["--engine", "emplace"]})
+    pl["gates"] += ["c14:construct-tail-bytes-checked", "c14:construct-refused-checked", "c14:construct-misaligned-checked"]
+    pl["rule"] += (" 'construct' sub-workload: new_in_place / FlatWrap::new_in_place of generated values into slices of every length around the needed size (too small, exact, "
+                   "not a multiple of the alignment) at aligned and misaligned addresses: canaries intact, a misaligned slice is not modified at all, and the bytes behind the last whole "
+                   "multiple of the alignment (which no value of the type mapped on that slice covers) keep their contents, also when the construction is refused.")
+    return pl
+
+
+def _c14_hist(q):
     return _hist(q, "All constructing / mutating operations incl. failing ones and field writes, always in island buffers. Oracle: canary bytes around the slice unchanged (native), no access outside the slice (Miri/ASan), "
                     "and the non-padding bytes of every sub-object that is not under the path being changed (sibling fields, other FlexVec items) are unchanged.",
                  ["op:set:done", "op:assign:done", "op:assign:refused", "op:flex_push:done", "op:push:done"])
